@@ -217,6 +217,7 @@ def lean_fold(name, rows, doc):
         body = ", ".join(f"({a}, [{', '.join(map(str, t))}])" for a, t in ch)
         out.append(f"def {name}_{k} : List (Nat × List Nat) := [{body}]")
     out.append(f"def {name} : List (Nat × List Nat) := " + " ++ ".join(f"{name}_{k}" for k in range(len(chunks))))
+    out.append(f"/-- the same table in pieces (two-level look-up in kernel-evaluated checks) -/\ndef {name}Chunks : List (List (Nat × List Nat)) := [" + ", ".join(f"{name}_{k}" for k in range(len(chunks))) + "]")
     return "\n".join(out) + "\n"
 
 
